@@ -53,7 +53,10 @@ D_msf(s, q) == IF IsSf(q) /\ q.n < 2 THEN NegR(q, NRC_IMLOIF) ELSE Nothing
 D_sfns(s, q) ==
   IF s.session \notin DOMAIN M /\ Dev_S20b_UnofferedSessionAsserts THEN Raise
   ELSE IF ~(IsSf(q) /\ Sid(q) # SID_RC) THEN Nothing
-  ELSE IF q.n < 2 THEN (IF Dev_S20_RuleOffRaises THEN Raise ELSE Nothing)             \* request.pdu[1]
+  ELSE IF q.n < 2 THEN                    \* intended: no sub-function byte, nothing to look up
+         (IF ~Dev_S20_RuleOffRaises THEN Nothing
+          ELSE IF Sid(q) \in VM.known THEN Raise                                        \* as found: request.pdu[1]
+          ELSE NegR(q, NRC_SFNS))                                                       \* as found: loop body never reached
   ELSE LET inAct == /\ s.session \in DOMAIN M /\ Sid(q) \in DOMAIN M[s.session]
                     /\ Sub(q) \in M[s.session][Sid(q)].subs
            inOth == \E x \in DOMAIN M : x # s.session /\ Sid(q) \in DOMAIN M[x] /\ Sub(q) \in M[x][Sid(q)].subs
@@ -78,6 +81,7 @@ Specific(s, l, q) ==
     [] Sid(q) = SID_RC   -> {Bytes(<<SID_RC + 64, Sub(q)>>), NegR(q, 49), NegR(q, NRC_SFNS), NegR(q, NRC_IMLOIF)}
     [] Sid(q) = SID_RDBI -> {Bytes(<<SID_RDBI + 64, q.b[2], q.b[3]>>), NegR(q, 49)}
     [] Sid(q) = 46       -> {Bytes(<<46 + 64, q.b[2], q.b[3]>>), NegR(q, 49), NegR(q, NRC_IMLOIF)}   \* WriteDataByIdentifier
+    [] Sid(q) = 20       -> {Bytes(<<20 + 64>>), NegR(q, 49)}                         \* ClearDiagnosticInformation
     [] OTHER -> {Nothing}
 
 (* respond_without_state_change: first enabled rule that answers.  Returns the
@@ -176,4 +180,5 @@ E_Verdict       == verdict = "ok"              \* the total verdict the trace sp
 E4_OnlyThatRule == e4
 \* C14 A2: with the sub-function rule in force the session is always an offered one
 A2_SessionOffered == ("sfns" \in B \/ "sc" \notin B) => Offered
+A2_Unconditional  == Offered     \* holds for the default switches; violated once the sub-function rule is off
 =============================================================================
